@@ -77,6 +77,17 @@ theorem allelic_missing_iff (cn : Int) (a : Rat) (baf : Option Rat) :
     ((allelic cn a baf).1 = none ∧ (allelic cn a baf).2 = none) ↔ (baf = none ∧ 0 < cn) :=
   CnvVerif.allelic_missing_iff cn a baf
 
+/-- … also when the b-allele frequencies come from `variants` and are rescaled for purity, which can push
+    them outside [0, 1] (observed 0.9 at purity 0.6 becomes 1.17): the split still lies within [0, cn] -/
+theorem allelic_sum_after_purity_rescale (cfg : CallCfg) (m : Method) (thr : List Rat) (fromVariants : Bool)
+    (rows : List SegRow) (hpos : ∀ r ∈ rows, 0 ≤ r.t) :
+    ∀ o ∈ callTableV cfg m thr fromVariants rows, ∀ cn c1 c2, o.cn = some cn → o.cn1 = some c1 → o.cn2 = some c2 →
+      0 ≤ cn ∧ c1 + c2 = cn ∧ 0 ≤ c1 ∧ c1 ≤ cn ∧ 0 ≤ c2 ∧ c2 ≤ cn :=
+  callTableV_allelic cfg m thr fromVariants rows hpos
+
+/-- the rescaled frequency really leaves [0, 1] for inputs inside it (so the clip is not redundant) -/
+theorem rescaled_baf_can_exceed_one : rescaleBaf (3/5) (9/10) = 7/6 := by decide +kernel
+
 /-! non-vacuity -/
 example : thresholdCall Generated.DEFAULT_THRESHOLDS 2 1 (some (1/10)) 1 = 1 := by decide +kernel
 example : allelic 3 3 (some (3/4)) = (some 2, some 1) := by decide +kernel
